@@ -183,10 +183,11 @@ def spliceAll : List (Nat × Nat × Str × Str) → Int → Str → Str
     let j := (Int.ofNat e + off).toNat
     spliceAll rest (off + Int.ofNat n.length - Int.ofNat o.length) (x.take i ++ n ++ x.drop j)
 
-/-- `replace_with_output(xml_text, context, survey)` -/
-def replaceWithOutput (refs : List (Str × Str)) (x : Str) : Outcome Str :=
+/-- `replace_with_output(xml_text, context, survey)` under a given lexicon (`none` = the rule table of the
+    source is not one the model knows) -/
+def replaceWithOutputWith (rules : Option Lexer.Rules) (refs : List (Str × Str)) (x : Str) : Outcome Str :=
   if x.length ≤ 9 then .ok x else
-  match Lexer.parseExpression x with
+  match rules.map fun r => Lexer.parseWith r x with
   | none => .unsupported "lexer-table"
   | some (tokens, _) =>
     let news := (findBoundaries tokens).mapM fun (se : Nat × Nat) =>
@@ -196,6 +197,10 @@ def replaceWithOutput (refs : List (Str × Str)) (x : Str) : Outcome Str :=
     | none => .pyxformError
     | some l => .ok (spliceAll l 0 x)
 
+/-- `replace_with_output` under the lexicon of the CURRENT source (`Lexer.activeRules`, regenerated table) -/
+def replaceWithOutput (refs : List (Str × Str)) (x : Str) : Outcome Str :=
+  replaceWithOutputWith Lexer.activeRules refs x
+
 /-- the tail of `insert_output_values` after `replace_with_output` -/
 def finishInsert (refs : List (Str × Str)) (text original x1 : Str) : Outcome (Str × Bool) :=
   let xmlText : Option Str :=
@@ -204,15 +209,19 @@ def finishInsert (refs : List (Str × Str)) (text original x1 : Str) : Outcome (
   | none => .pyxformError
   | some x => if x ≠ original then .ok (x, true) else .ok (text, false)
 
-/-- `Survey.insert_output_values(text, context)` → (string, changed) -/
-def insertOutputValues (refs : List (Str × Str)) (text : Str) : Outcome (Str × Bool) :=
+/-- `Survey.insert_output_values(text, context)` → (string, changed), under a given lexicon -/
+def insertOutputValuesWith (rules : Option Lexer.Rules) (refs : List (Str × Str)) (text : Str) : Outcome (Str × Bool) :=
   if text = ['-'] then .ok (text, false) else
   let original := escText text
-  match replaceWithOutput refs original with
+  match replaceWithOutputWith rules refs original with
   | .ok x1 => finishInsert refs text original x1
   | .pyxformError => .pyxformError
   | .reparseError => .reparseError
   | .unsupported w => .unsupported w
+
+/-- `Survey.insert_output_values(text, context)` → (string, changed) -/
+def insertOutputValues (refs : List (Str × Str)) (text : Str) : Outcome (Str × Bool) :=
+  insertOutputValuesWith Lexer.activeRules refs text
 
 /-! ## The character check of `validate_xml_document` (utils.py, run at the end of `Survey.xml()`) -/
 
@@ -250,8 +259,8 @@ def nodeParsed (tag inner : Str) : Option Node :=
   | _ => none
 
 /-- label / hint / itext value: `node(tag, *insert_output_values(text), toParseString=…)` -/
-def mixedChannel (refs : List (Str × Str)) (tag text : Str) : Outcome Node :=
-  match insertOutputValues refs text with
+def mixedChannelWith (rules : Option Lexer.Rules) (refs : List (Str × Str)) (tag text : Str) : Outcome Node :=
+  match insertOutputValuesWith rules refs text with
   | .ok (x, true) =>
     -- utils.node (fix 9bea19c): `_validate_xml_chars(unicode_args[0], …)` before `parseString`
     if !validChars x then .pyxformError else
@@ -262,5 +271,9 @@ def mixedChannel (refs : List (Str × Str)) (tag text : Str) : Outcome Node :=
   | .pyxformError => .pyxformError
   | .reparseError => .reparseError
   | .unsupported w => .unsupported w
+
+/-- the channel under the lexicon of the current source -/
+def mixedChannel (refs : List (Str × Str)) (tag text : Str) : Outcome Node :=
+  mixedChannelWith Lexer.activeRules refs tag text
 
 end Pyxv.Chan
